@@ -358,7 +358,7 @@ def run_check(engine_name, tier, seed_, nworkers=None):
     cov['shrink_runs'] = stats.counters.get('shrink_runs', 0)
     cov['known_findings_seen'] = {k: v[0] for k, v in stats.known.items()}
     cov['observations'] = stats.observations
-    cov['harness_errors'] = errors[:5]
+    cov['harness_errors'] = [e[-800:] for e in errors[:3]]
     cov['slowest_plan_wall_s'] = stats.slowest[0]
     cov['slowest_plan'] = stats.slowest[1]
     cov['worker_wall_s'] = sorted(round(r.get('wall', 0), 1) for r in results)
